@@ -82,3 +82,21 @@ Theorem C08_fwdall_scan_skeleton_is_code : forall d p k l_init,
        (G.gen_fwdall_entry_hour (k_dep k) (k_arr k) (k_minAcc k) (k_minEgr k) (q_minw p) (k_maxAcc k) (k_maxEgr k)) l_init d p k).
 Proof. exact fwdall_scan_skel_tie. Qed.
 Print Assumptions C08_fwdall_scan_skeleton_is_code.
+
+(* tie to the source, stage 3d: the per-stop loop of the all-nodes result builder (forwardJourneyStepAllNodes, forward_journey.cpp) - the listing condition,
+   the backwards walk over the labels, the time of the stop, the max-travel-time filter, the node that is pushed - is read
+   from the source AS IT IS NOW by tools/gen_loops.py (gen/AllNodes.v) and executed by the interpreter of AllNodes.v; the
+   model computes the same list of nodes, stop by stop and for the whole list of stops *)
+Require Import TrV.AllNodes.
+From TrV Require Import Proofs.AllNodesTie.
+Theorem C08_allnodes_stop_is_code : forall d p k steps labels fuel n m, (forall j, labels n = Some j -> label_ok j) ->
+  omap nb_nodes (run_stop GN.gen_fwdall_stop {| ne_d := d; ne_p := p; ne_k := k; ne_steps := steps; ne_labels := labels; ne_node := n |} fuel m)
+  = fwd_stop d p k steps labels fuel n (nb_nodes m).
+Proof. exact fwd_stop_tie. Qed.
+Print Assumptions C08_allnodes_stop_is_code.
+Theorem C08_allnodes_builder_is_code : forall d p k fs m0,
+  (forall n j, f_egr fs n = Some j -> label_ok j) -> nb_nodes m0 = nil ->
+  omap nb_nodes (run_stops GN.gen_fwdall_stop d p k (f_steps fs) (f_egr fs) (REBUILD_FUEL d) (d_nodes d) m0) =
+  fwd_allnodes_loop d p k fs (d_nodes d).
+Proof. exact fwd_allnodes_builder_tie. Qed.
+Print Assumptions C08_allnodes_builder_is_code.
